@@ -4,7 +4,7 @@ P : coq/Plugin/{Model,Spec,Proofs,Props}.v
       names      c19_name_complete / c19_name_sound (+ _nonascii_refuted, _truncation_refuted)
       message    c19_message_blocked / c19_deny_sound
       machine    c19_enforced (+ c19_ps_cache_refuted), c19_enforced_messages, c19_batch_dropped,
-                 c19_q_answered, c19_sync_answers_*, c19_no_stale_verdict (+ _stale_intercept_refuted)
+                 c19_q_answered, c19_sync_answers_*, c19_no_stale_verdict
       intercept  c19_intercept_exact / c19_intercept_only_matching
       disabled   c19_disabled_noop / c19_plugins_none_allow
 T2: library level.  Real sqlparser + QueryRouter::execute_plugins (harness bins `router`, op
@@ -15,9 +15,9 @@ T2: library level.  Real sqlparser + QueryRouter::execute_plugins (harness bins 
       L3  a model-free monitor: PostgreSQL's identifier resolution rule in Python.
     Intercept: real reply bytes vs the Coq encoder, and vs an independent Python reader of the
     reply compared with the configured rows.
-    The enforcement state machine is confronted with the real client.rs by the wire harness
-    (separate); this file already provides the sequence generator, the model's expected traces
-    (JSON) and the rendering of abstract messages to wire messages: sequences_with_expected().
+    Wire level: the enforcement state machine vs the real Client::handle (harness bin `wire`: pgcat
+    in-process, mock backend, scripted client): boundary + random message sequences, what the server
+    received and what the client was answered, message by message (check_wire).
 """
 import json, os, re, struct, sys
 import vlib
@@ -43,7 +43,6 @@ KNOWN = {
     "trunc": "C19-identifier-truncation: a listed 63-byte table name spelled with extra trailing characters passes table_access (PostgreSQL truncates identifiers to 63 bytes)",
     "ps_cache": "C19-ps-cache-replay (theorem c19_ps_cache_refuted; observed on the wire): with prepared-statement caching, Parse(s1, denied) Sync registers s1 in the client map before the "
                 "verdict is enforced; Bind(s1) Execute Sync makes pgcat send the cached Parse and run it",
-    "stale": "C19-stale-intercept (theorem c19_stale_intercept_refuted; observed on the wire): a failed checkout at Sync clears the batch but keeps an Intercept verdict; the next unrelated batch is answered with the old rows",
     "maxlen": "C19-parser-max-length: with query_parser_max_length set, a message longer than the limit is never parsed, so no plugin runs and it is forwarded: "
               "'SELECT * FROM secret' padded with blanks beyond the limit passes table_access",
     "schema_panic": "C19-intercept-schema-panic: an intercept rule whose schema has an entry with fewer than two strings panics the client task when its query matches (row[1])",
@@ -730,8 +729,7 @@ A, T, F = ("Allow",), True, False
 STD = {"parser_on": T, "plugins_on": T, "ps_on": F, "txn_mode": T}
 PSC = dict(STD, ps_on=T)
 # boundary sequences, always first: the repaired overwrite, every position of a rejected Parse in a batch, Q inside a
-# transaction, pending verdict consumed by a Q, and the two reported gaps (witnesses of c19_ps_cache_refuted /
-# c19_stale_intercept_refuted) — the first things to try on the wire
+# transaction, pending verdict consumed by a Q, the reported gap (witness of c19_ps_cache_refuted) and the repaired stale-Intercept sequence
 FIXED = [
     (STD, [("MP", 1, 0, 7, T, ("Deny", 1)), ("MP", 2, 0, 8, T, A), ("MB", 3, 0), ("ME", 4), ("MS", 5, T, F)]),
     (STD, [("MP", 1, 0, 8, T, A), ("MB", 2, 0), ("ME", 3), ("MP", 4, 0, 7, T, ("Deny", 4)), ("MB", 5, 0), ("ME", 6), ("MS", 7, T, F)]),
@@ -845,6 +843,20 @@ def gen_wire_sequence(rng, maxlen=9):
         elif m[0] == "MH":
             m = ("MH", m[1], True)
         out.append(m)
+    if cfg["ps_on"]:
+        # With caching on, an ErrorResponse from the server makes Server::recv drop the statement it is registering from
+        # its cache (C08's subject, not modelled here): keep the server error-free - no Execute / Describe-portal without
+        # a Bind since the last Sync / Query.
+        keep, bound = [], False
+        for m in out:
+            if m[0] in ("MS", "MQ"):
+                bound = False
+            elif m[0] == "MB":
+                bound = True
+            elif (m[0] == "ME" or (m[0] == "MD" and not m[2])) and not bound:
+                continue
+            keep.append(m)
+        out = keep or [("MS", 1, True, False)]
     return cfg, out
 
 
@@ -901,8 +913,8 @@ def build_wire_scenario(cfg, rows):
                                               "pool_mode": "transaction" if cfg["txn_mode"] else "session"},
                                      "plugins": plug if pool_level else None, "users": [{"username": "u", "password": "pw", "pool_size": 1}],
                                      "shards": [{"database": "db0", "servers": [["b0", "primary"]]}]}})
-    steps = [{"op": "connect", "c": "a", "params": {"user": "u", "database": "db"}, "password": "pw", "timeout_ms": 1500},
-             {"op": "connect", "c": "h", "params": {"user": "u", "database": "db"}, "password": "pw", "timeout_ms": 1500}]
+    steps = [{"op": "connect", "c": "a", "params": {"user": "u", "database": "db"}, "password": "pw", "timeout_ms": 1500}]
+    nhold = 0
     exp_backend, exp_client, ours, reply_ops = [], [], set(text_of.values()), []
     nm = lambda n: "" if n == 0 else "s%d" % n
     ended = False
@@ -923,8 +935,12 @@ def build_wire_scenario(cfg, rows):
         else:
             wm = {"t": "H"}
         block = (k in ("MQ", "MS", "MH")) and not held and not pool_ok(m)
-        if block:       # exhaust the pool: the only server is inside h's transaction
-            steps += [{"op": "send", "c": "h", "msgs": [{"t": "Q", "sql": "BEGIN /*c19:holder*/"}]}, {"op": "recv", "c": "h", "until": "Z", "timeout_ms": 1500, "label": "hold"}]
+        if block:       # exhaust the pool: a fresh client takes the only server into a transaction (and leaves afterwards:
+                        # in session mode it would keep the server for good)
+            nhold += 1
+            h = "h%d" % nhold
+            steps += [{"op": "connect", "c": h, "params": {"user": "u", "database": "db"}, "password": "pw", "timeout_ms": 1500},
+                      {"op": "send", "c": h, "msgs": [{"t": "Q", "sql": "BEGIN /*c19:holder*/"}]}, {"op": "recv", "c": h, "until": "Z", "timeout_ms": 1500, "label": "hold"}]
         steps.append({"op": "send", "c": "a", "msgs": [wm]})
         group = None
         for e in evs:
@@ -955,7 +971,8 @@ def build_wire_scenario(cfg, rows):
             exp_client.append(group)
             steps.append({"op": "recv", "c": "a", "until": "Z", "timeout_ms": 2500})
         if block:
-            steps += [{"op": "send", "c": "h", "msgs": [{"t": "Q", "sql": "COMMIT /*c19:holder*/"}]}, {"op": "recv", "c": "h", "until": "Z", "timeout_ms": 1500, "label": "unhold"}]
+            steps += [{"op": "send", "c": h, "msgs": [{"t": "Q", "sql": "COMMIT /*c19:holder*/"}]}, {"op": "recv", "c": h, "until": "Z", "timeout_ms": 1500, "label": "unhold"},
+                      {"op": "send", "c": h, "msgs": [{"t": "X"}]}, {"op": "close", "c": h}, {"op": "sleep", "ms": 40}]
         if ended:
             break
     if not ended:
@@ -980,7 +997,7 @@ def observe_wire(res, texts):
                 back.append((t,))
         elif e.get("ev") == "recv" and e.get("who") == "a":
             frames.extend(e["frames"])
-        elif e.get("ev") == "recv" and e.get("who") == "h" and e.get("outcome") != "ok":
+        elif e.get("ev") == "recv" and str(e.get("who", "")).startswith("h") and e.get("outcome") != "ok":
             hold_ok = False
     groups, cur = [], []
     for f in frames:
@@ -1065,20 +1082,28 @@ def check_wire(run, n, st):
                     run.violation("counterexample", "a statement the plugins rejected reached the server: %s" % (b,),
                                   {"input": {"cfg": c, "ops": [list(o) for o in ops]}, "impl": {"backend": back}})
                     return len(scns)
-        # rows answered to a batch without an intercepted Parse/Query since the previous reply
-        gi, since = 0, []
+        # rows answered to a batch that holds no intercepted Parse (the batch = the messages buffered since the last Sync /
+        # the last consumption of a pending verdict), or to a Query that is not itself intercepted
+        gi, batch = 0, []
         for (m, held, cur, evs), has_reply in zip(rows, ex["reply_ops"]):
-            since.append(m)
-            if not has_reply:
-                continue
-            g = groups[gi] if gi < len(groups) else None
-            gi += 1
+            g = None
+            if has_reply:
+                g = groups[gi] if gi < len(groups) else None
+                gi += 1
+            own = m[0] == "MQ" and m[2] and m[3][0] != "Allow"
             if g and g[0] == "intercept":
-                earned = any((x[0] == "MQ" and x[2] and x[3] == ("Intercept", g[1])) or (x[0] == "MP" and x[4] and x[5] == ("Intercept", g[1])) for x in since)
-                if not earned:
-                    st["known"]["stale_wire"] = st["known"].get("stale_wire", 0) + 1
-                    note(st, "stale", " [wire: %s answered with the rows of rule %d]" % (json.dumps([list(x) for x in since]), g[1]), prio=1)
-            since = []
+                if m[0] == "MQ":
+                    earned = m[2] and m[3] == ("Intercept", g[1])
+                else:
+                    earned = any(x[0] == "MP" and x[4] and x[5] == ("Intercept", g[1]) for x in batch)
+                if not earned:     # fixed by a7d476c (was: a failed checkout at Sync kept the Intercept verdict)
+                    run.violation("counterexample", "a batch that matches no intercept rule is answered with the rows of rule %d: %s then %s" % (g[1], json.dumps([list(x) for x in batch]), list(m)),
+                                  {"input": {"cfg": c, "ops": [list(o) for o in ops]}, "impl": {"client": groups}})
+                    return len(scns)
+            if m[0] == "MS" or (m[0] == "MQ" and g and g[0] in ("plugin_error", "intercept") and not own):
+                batch = []
+            elif m[0] in ("MP", "MB", "MD", "ME", "MC"):
+                batch.append(m)
     return len(scns)
 
 
@@ -1138,7 +1163,6 @@ def check(run):
     if missing_groups and not run.violations:
         run.broken.append("statement groups never accepted by the parser: %s" % missing_groups)
     # the model-level findings are reported on every run (their witnesses are theorems of Props.v)
-    note(st, "stale", "", prio=-1)
     note(st, "ps_cache", "", prio=-1)
     for cls in sorted(st["kf"]):
         run.known_finding(KNOWN[cls] + st["kf"][cls][1], key=cls)
